@@ -42,7 +42,7 @@ def describe(tier):
     b = BOUNDS[tier]
     return {
         "bounds": {"N": b["Ns"], "dtypes": b["dtypes"], "sample_shapes": [list(s) for s in b["shapes"]],
-                   "rates/units": b["rates"], "bins": "0, +-1, +-2, +-1/2, +-5/2, +-(N-1), +-N, +-(N+3); uniform + 4 mixed fillings"},
+                   "rates/units": b["rates"], "bins": "0, -0.0, +-1, +-2, +-1/2, +-5/2, +-(N-1), +-N, +-(N+3); uniform + 5 mixed fillings"},
         "alphabet": ["freq_shift(z, scalar Quantity)", "freq_shift(z, Quantity array of every broadcastable shape)",
                      "TypeError for non-baseband", "ValueError for non-frequency shift / too many dims"],
         "rule": "state = (N, dtype, sample shape, rate, shift shape, filling); one real call per state on a complete basis + "
@@ -71,7 +71,7 @@ def fillings(N, shape):
     for v in vals:
         yield f"uniform {v}", np.full(shape, float(v))
     mixed = [[0.5, -2, 2.5, -1, N + 3, -0.5], [-(N - 1), 1, 0, 2.5, -0.5, 2], [1, 2, 0.5, N - 1, 2.5, N],
-             [-1, -2.5, -0.5, -N, -2, -(N + 3)]]
+             [-1, -2.5, -0.5, -N, -2, -(N + 3)], [-0.0, 2.5, -0.0, -1, 0.0, -0.0]]
     for i, m in enumerate(mixed):
         yield f"mixed{i}", np.array([m[j % len(m)] for j in range(size)], dtype=float).reshape(shape)
 
